@@ -71,6 +71,156 @@ impl<'de> serde::Deserialize<'de> for BytesOnly {
     }
 }
 
+/// a peer that repeats sasl-init against the crate's SCRAM listener and then goes straight to the AMQP layer;
+/// adapted from the demonstration stored with seeded change C19-5
+#[cfg(feature = "scram")]
+mod intruder {
+    use std::{sync::Arc, time::Duration};
+
+    use bytes::BytesMut;
+    use fe2o3_amqp::{
+        acceptor::{scram::SingleScramCredential, ConnectionAcceptor},
+        auth::scram::{ScramAuthenticator, ScramVersion},
+        frames::sasl,
+    };
+    use fe2o3_amqp_types::{
+        performatives::Open,
+        primitives::{Binary, Symbol},
+        sasl::SaslInit,
+    };
+    use tokio::io::{AsyncReadExt, AsyncWriteExt, DuplexStream};
+    use tokio_util::codec::{Decoder, Encoder};
+
+    const USERNAME: &str = "guest";
+    const PASSWORD: &str = "correct horse battery staple";
+    const STEP_TIMEOUT: Duration = Duration::from_millis(1500);
+
+    const SASL_HEADER: [u8; 8] = *b"AMQP\x03\x01\x00\x00";
+    const AMQP_HEADER: [u8; 8] = *b"AMQP\x00\x01\x00\x00";
+
+    pub type Credential = Arc<SingleScramCredential>;
+
+    pub fn credential() -> Credential {
+        Arc::new(SingleScramCredential::new(USERNAME, PASSWORD, ScramVersion::Sha256).unwrap())
+    }
+
+    pub fn acceptor(
+        credential: Credential,
+    ) -> ConnectionAcceptor<(), ScramAuthenticator<Credential>> {
+        ConnectionAcceptor::builder()
+            .container_id("scram-listener")
+            .sasl_acceptor(ScramAuthenticator::new(credential))
+            .build()
+    }
+
+    /// One whole SASL frame (with the 4 byte size) for the performative
+    fn sasl_frame(frame: sasl::Frame) -> Vec<u8> {
+        let mut body = BytesMut::new();
+        let mut codec = sasl::FrameCodec {};
+        codec.encode(frame, &mut body).unwrap();
+        let mut buf = Vec::with_capacity(body.len() + 4);
+        buf.extend_from_slice(&((body.len() + 4) as u32).to_be_bytes());
+        buf.extend_from_slice(&body);
+        buf
+    }
+
+    fn sasl_init(n: usize) -> Vec<u8> {
+        let client_first = format!("n,,n={},r=clientnonce{:04}", USERNAME, n);
+        sasl_frame(sasl::Frame::Init(SaslInit {
+            mechanism: Symbol::from("SCRAM-SHA-256"),
+            initial_response: Some(Binary::from(client_first.into_bytes())),
+            hostname: None,
+        }))
+    }
+
+    /// One whole AMQP frame on channel 0 carrying an `open`
+    fn open_frame() -> Vec<u8> {
+        let open = Open {
+            container_id: "intruder".to_string(),
+            hostname: None,
+            max_frame_size: Default::default(),
+            channel_max: Default::default(),
+            idle_time_out: None,
+            outgoing_locales: None,
+            incoming_locales: None,
+            offered_capabilities: None,
+            desired_capabilities: None,
+            properties: None,
+        };
+        let body = serde_amqp::to_vec(&open).unwrap();
+        let mut buf = Vec::with_capacity(body.len() + 8);
+        buf.extend_from_slice(&((body.len() + 8) as u32).to_be_bytes());
+        buf.extend_from_slice(&[0x02, 0x00, 0x00, 0x00]);
+        buf.extend_from_slice(&body);
+        buf
+    }
+
+    /// Reads one SASL frame; `None` if the peer closed, stalled, or sent something that is not
+    /// a SASL frame
+    async fn read_sasl_frame(io: &mut DuplexStream) -> Option<sasl::Frame> {
+        let read = async {
+            let mut size = [0u8; 4];
+            io.read_exact(&mut size).await.ok()?;
+            let size = u32::from_be_bytes(size) as usize;
+            if !(8..=512).contains(&size) {
+                return None;
+            }
+            let mut rest = vec![0u8; size - 4];
+            io.read_exact(&mut rest).await.ok()?;
+            let mut src = BytesMut::from(&rest[..]);
+            let mut codec = sasl::FrameCodec {};
+            codec.decode(&mut src).ok().flatten()
+        };
+        tokio::time::timeout(STEP_TIMEOUT, read).await.ok().flatten()
+    }
+
+    /// Returns a description of what the intruder observed after it switched to AMQP
+    pub async fn intruder(mut io: DuplexStream, inits: usize) -> String {
+        if io.write_all(&SASL_HEADER).await.is_err() { return "closed".to_string(); }
+        let mut header = [0u8; 8];
+        if io.read_exact(&mut header).await.is_err() { return "closed".to_string(); }
+        if header != SASL_HEADER { return "listener did not answer with the SASL header".to_string(); }
+        match read_sasl_frame(&mut io).await {
+            Some(sasl::Frame::Mechanisms(_)) => {}
+            other => return format!("expecting sasl-mechanisms, found {:?}", other),
+        }
+
+        for n in 0..inits {
+            if io.write_all(&sasl_init(n)).await.is_err() {
+                return format!("listener closed before sasl-init #{}", n + 1);
+            }
+            match read_sasl_frame(&mut io).await {
+                Some(sasl::Frame::Challenge(_)) => {}
+                Some(sasl::Frame::Outcome(outcome)) => {
+                    return format!("sasl-outcome {:?} after sasl-init #{}", outcome.code, n + 1)
+                }
+                other => return format!("{:?} after sasl-init #{}", other, n + 1),
+            }
+        }
+
+        // No sasl-response, no sasl-outcome: go straight to the AMQP layer
+        let _ = io.write_all(&AMQP_HEADER).await;
+        let _ = io.write_all(&open_frame()).await;
+
+        let mut header = [0u8; 8];
+        match tokio::time::timeout(STEP_TIMEOUT, io.read_exact(&mut header)).await {
+            Ok(Ok(_)) if header == AMQP_HEADER => {
+                // Keep the stream open until the listener made up its mind
+                let mut rest = Vec::new();
+                let _ = tokio::time::timeout(STEP_TIMEOUT, io.read_to_end(&mut rest)).await;
+                format!(
+                    "listener answered with the AMQP header and {} more bytes",
+                    rest.len()
+                )
+            }
+            Ok(Ok(_)) => format!("listener answered with {:?}", header),
+            Ok(Err(_)) => "listener closed the stream".to_string(),
+            Err(_) => "listener is silent".to_string(),
+        }
+    }
+
+}
+
 /// a hand-scripted transaction controller (raw frames) against the crate's own listener; adapted from the
 /// demonstration stored with seeded change C18-3
 mod txc {
@@ -1651,6 +1801,34 @@ fn main() {
                     }
                 }
                 format!("{{\"payload_intact\":{},\"failed_encodings\":{:?}}}", intact, which)
+            }
+            // sasl_repeated_init <max>: for k = 1..=max a peer sends k sasl-init frames (SCRAM, known user, never a
+            //   response) to the crate's listener and then the AMQP header and an open: the listener must never open a
+            //   connection for it.
+            #[cfg(feature = "scram")]
+            "sasl_repeated_init" => {
+                let max = nums.first().copied().unwrap_or(32).max(1) as usize;
+                let rt = tokio::runtime::Builder::new_current_thread().enable_time().build().unwrap();
+                let opened: (Vec<usize>, String) = rt.block_on(async move {
+                    let credential = intruder::credential();
+                    let mut opened = Vec::new();
+                    let mut last = String::new();
+                    for inits in 1..=max {
+                        let (client_io, server_io) = tokio::io::duplex(16 * 1024);
+                        let acceptor = intruder::acceptor(credential.clone());
+                        let server = tokio::spawn(async move { tokio::time::timeout(std::time::Duration::from_secs(5), acceptor.accept(server_io)).await });
+                        let client = tokio::spawn(intruder::intruder(client_io, inits));
+                        let accepted = server.await;
+                        let observed = client.await.unwrap_or_default();
+                        if matches!(accepted, Ok(Ok(Ok(_)))) || observed.contains("AMQP header") {
+                            opened.push(inits);
+                        }
+                        last = observed;
+                    }
+                    (opened, last)
+                });
+                let (opened, last) = opened;
+                format!("{{\"never_opened\":{},\"opened_after_inits\":{:?},\"last_observed\":{:?}}}", opened.is_empty(), opened, last)
             }
             "framedec" => {
                 use bytes::BytesMut;
